@@ -141,6 +141,8 @@ class Harness(object):
         self._sampled = {}
         self.wall_s = 240 if ctx.tier == "quick" else 600
         signal.signal(signal.SIGALRM, self._alarm)
+        self.probes = None          # [(name, fn, first output)]: deterministic ENCODER calls, see run_probes()
+        self._offers = 0
 
     # ---- wall clock (inconclusive only)
     def _alarm(self, signum, frame):
@@ -170,6 +172,55 @@ class Harness(object):
                 self.ctx.violation(key, what, w)
             self.ctx.violations[key]["count"] = count
         self.viol = {}
+
+    # ---- encoder probes: "encoding is canonical" must hold whatever the process decoded before
+    def _build_probes(self):
+        from Crypto.Util import asn1, Padding, number
+        from Crypto.IO import PEM, PKCS8
+        from Crypto.PublicKey import RSA, ECC
+        key_a = asn1.DerSequence([0, 2 ** 127 + 99, 65537]).encode()
+        rsa = RSA.construct((0xC0FFEE * 2 ** 1000 + 0x1234567, 65537), consistency_check=False)
+        ecc = ECC.construct(curve="P-256", d=0x1234567890ABCDEF)
+        P = [
+            ("PKCS8.wrap", lambda: PKCS8.wrap(key_a, "1.2.840.113549.1.1.1")),
+            ("PKCS8.wrap", lambda: PKCS8.wrap(key_a, "1.3.101.112", key_params=None)),
+            ("PKCS8.wrap", lambda: PKCS8.wrap(key_a, "1.2.840.10045.2.1", key_params=asn1.DerObjectId("1.2.840.10045.3.1.7"))),
+            ("DerNull", lambda: asn1.DerNull().encode()),
+            ("DerInteger", lambda: asn1.DerInteger(-129).encode() + asn1.DerInteger(2 ** 64).encode() + asn1.DerInteger(0).encode()),
+            ("DerSequence", lambda: asn1.DerSequence([1, 2 ** 70, asn1.DerNull().encode(), asn1.DerOctetString(b"ab").encode()]).encode()),
+            ("DerOctetString", lambda: asn1.DerOctetString(b"x" * 130).encode()),
+            ("DerBitString", lambda: asn1.DerBitString(b"\x01\x02").encode()),
+            ("DerObjectId", lambda: asn1.DerObjectId("1.2.840.113549.1.1.11").encode()),
+            ("DerSetOf", lambda: asn1.DerSetOf([5, 1, 300]).encode()),
+            ("DerBoolean", lambda: asn1.DerBoolean(True).encode()),
+            ("PEM.encode", lambda: PEM.encode(bytes(range(70)), "TEST DATA").encode()),
+            ("pad", lambda: Padding.pad(b"abc", 16) + Padding.pad(b"abc", 8, "x923") + Padding.pad(b"", 16, "iso7816")),
+            ("long_to_bytes", lambda: number.long_to_bytes(2 ** 71 + 5) + number.long_to_bytes(1, 8)),
+            ("RSA.export_key", lambda: rsa.export_key("DER") + rsa.export_key("PEM") + rsa.export_key("OpenSSH")),
+            ("ECC.export_key", lambda: ecc.export_key(format="DER") + ecc.export_key(format="PEM").encode()
+             + ecc.public_key().export_key(format="DER") + ecc.public_key().export_key(format="SEC1")),
+        ]
+        self.probes = []
+        for name, fn in P:
+            try:
+                self.probes.append((name, fn, fn()))
+            except Exception as e:      # noqa
+                self.ctx.note("encoder probe %s could not be built: %r" % (name, e))
+
+    def run_probes(self, after):
+        """Every probe is a pure function of its (fixed) arguments: its output now must equal its output at the start of the
+        process, before any hostile input was decoded."""
+        for name, fn, first in self.probes:
+            try:
+                got = fn()
+            except Exception as e:      # noqa
+                got = e
+            self.ctx.count("encoder_probes")
+            self.check(isinstance(got, bytes) and got == first, "canonical:%s:output-depends-on-earlier-decodes" % name,
+                       "%s with fixed arguments returned other bytes than at the start of the process: the encoding depends on what "
+                       "was decoded before (state left behind by a decoder)" % name,
+                       lambda: {"encoder": name, "at_start": _hx(first), "now": _hx(got) if isinstance(got, bytes) else repr(got)[:300],
+                                "decoded_just_before": after}, 0)
 
     # ---- one guarded call
     def guarded(self, fn, budget):
@@ -229,8 +280,14 @@ class Harness(object):
             if not calibrate:
                 ctx.count(name + "|uncalibrated")
             b = self.CAL_BUDGET
+        if self.probes is None:
+            self._build_probes()
         kind, val, steps = self.guarded(lambda: dec.fn(data, **allkw), b)
         ctx.count(name + "|inputs")
+        self._offers += 1
+        if self._offers % 150 == 0 or (kind == "ok" and not icls.startswith("valid")):
+            # after an input that is not one of the valid corpus items was ACCEPTED (and at regular intervals)
+            self.run_probes({"decoder": name, "input_class": icls, "input": _hx(data, 400), "outcome": kind})
 
         def W(**more):
             w = {"decoder": name, "input": _hx(data), "input_class": icls, "steps": steps, "step_bound": b,
